@@ -136,6 +136,51 @@ def walk(ahb):
         yield from visit(root, None)
 
 
+def attribute_items(ahb, items):
+    """
+    The walk position of every reported item, or None if the report does not fit the tree. Discriminators may repeat
+    anywhere in an AHB, so a name does not identify a node: the report itself says which nodes are missing (everything
+    below a group or segment it reports forbidden), so the items are consumed as a queue along the document order and
+    the sub-tree of a forbidden node is stepped over.
+    """
+    positions, queue, counter = [], list(items), [0]
+
+    class Mismatch(Exception):
+        pass
+
+    def size(node):
+        if node["t"] == "g":
+            return 1 + sum(size(c) for c in node.get("groups", [])) + sum(size(c) for c in node.get("segments", []))
+        if node["t"] == "s":
+            return 1 + len(node["des"])
+        return 1
+
+    def visit(node):
+        position = counter[0]
+        counter[0] += 1
+        if len(positions) == len(queue) or queue[len(positions)]["discriminator"] != node["d"]:
+            raise Mismatch
+        item = queue[len(positions)]
+        positions.append(position)
+        if node["t"] not in ("g", "s"):
+            return
+        result = item.get("validation_result")
+        status = str(result.get("requirement_validation")) if isinstance(result, dict) else ""
+        if status.split(".")[-1] == "IS_FORBIDDEN":
+            counter[0] += size(node) - 1
+            return
+        children = node.get("groups", []) + node.get("segments", []) if node["t"] == "g" else node["des"]
+        for child in children:
+            visit(child)
+
+    try:
+        for root in ahb["lines"]:
+            visit(root)
+    except Mismatch:
+        return None
+    return positions if len(positions) == len(queue) else None
+
+
 def count_nodes(ahb):
     return sum(1 for _ in walk(ahb))
 
